@@ -23,7 +23,7 @@ ASSUMPTIONS = [
 ]
 
 OPS = ["eval", "basis", "insert", "remove", "elevate", "reduce", "split", "join",
-       "add", "sub", "mul", "div", "matmul", "fit_curve", "fit_points", "integrate", "lossy"]
+       "add", "sub", "mul", "div", "matmul", "fit_curve", "fit_points", "integrate", "lossy", "smul"]
 
 
 # ----------------------------------------------------------------- number generators
@@ -62,7 +62,7 @@ def big_structure(draw):
     U += [b] * (p + 1)
     n = len(U) - p - 1
     dim = draw(st.sampled_from([0, 0, 2]))
-    intpoints = draw(st.integers(0, 9)) < 3
+    intpoints = draw(st.integers(0, 9)) < 4
     val = big_ints().map(lambda v: F(v)) if intpoints else big_fracs()
     P = draw(gen.ctrlpoints(n, dim, val))
     rational = draw(st.integers(0, 3)) == 0
@@ -76,7 +76,7 @@ def big_structure(draw):
     Q = draw(gen.ctrlpoints(m, dim if draw(st.booleans()) else 0, big_fracs(False)))
     return {"A": {"U": U, "p": p, "P": P, "w": w, "num": "fracint" if intpoints else "frac"},
             "B": {"U": V, "p": q, "P": Q, "w": None, "num": "frac"},
-            "op": draw(st.sampled_from(OPS)), "t": draw(st.sampled_from([F(1, 3), F(2, 5), F(1, 2)])),
+            "op": draw(st.sampled_from(OPS + ["smul", "smul", "lossy"])), "t": draw(st.sampled_from([F(1, 3), F(2, 5), F(1, 2)])),
             "profile": "big", "order": draw(st.sampled_from(lib.SEQ_ORDERS))}
 
 
@@ -103,7 +103,7 @@ def small_structure(draw):
                             st.builds(lambda x, d: F(x, d), st.integers(1, 12), st.sampled_from([1, 2, 3]))))
     return {"A": {"U": U, "p": p, "P": P, "w": w, "num": "frac"},
             "B": {"U": V, "p": q, "P": Q, "w": None, "num": "frac"},
-            "op": draw(st.sampled_from(OPS)), "t": draw(st.sampled_from([F(1, 3), F(2, 5), F(1, 2)])),
+            "op": draw(st.sampled_from(OPS + ["smul", "smul", "lossy"])), "t": draw(st.sampled_from([F(1, 3), F(2, 5), F(1, 2)])),
             "profile": "small", "float_first": draw(st.booleans()), "order": draw(st.sampled_from(lib.SEQ_ORDERS))}
 
 
@@ -228,6 +228,12 @@ def run_op(case, num):
             items.append(("state", lib.state_of(T)))
             raws.append(T.ctrlpoints)
         return items, raws
+    if op == "smul":
+        # scalar forms with an integer scalar large enough for products to leave the 64-bit range
+        sc = 3 * 10 ** 10 if num in ("frac", "fracint") else float(3 * 10 ** 10)
+        R1, R2, R3 = sc * A, A * sc, -A
+        return ([("state", lib.state_of(R1)), ("state", lib.state_of(R2)), ("state", lib.state_of(R3))],
+                [R1.ctrlpoints, R2.ctrlpoints, R3.ctrlpoints])
     if op == "lossy":
         # a projection that really loses something: forced removal of a needed knot, or forced degree reduction
         if a.w is not None:
@@ -276,6 +282,10 @@ def expected(case, num="frac"):
         if op == "fit_curve":
             out.append(("value", (F(0),)))
         return out
+    if op == "smul":
+        def scaled(f):
+            return State(a.U, a.p, [tuple(f * x for x in pt) for pt in a.P], a.w, a.scalar)
+        return [("same", scaled(3 * 10 ** 10)), ("same", scaled(3 * 10 ** 10)), ("same", scaled(-1))]
     if op == "lossy":
         # differential between the number profiles: the exact run of the library on the same (rounded) data is the
         # reference (its correctness as a projection is what C05 / C06 / C11 decide)
@@ -428,6 +438,8 @@ def check_differential(case, out):
     scale_b = max([abs(x) for pt in b.P for x in pt] + [F(1)])
     if op in ("mul", "matmul"):
         scale = scale * scale_b
+    if op == "smul":
+        scale = scale * 3 * 10 ** 10
     tol = F(1, 10 ** 9) * scale * (100 if op in ("div",) else 1)
     for num in ("float", "npfloat"):
         klass = f"{op};{kind};{num}"
